@@ -46,6 +46,18 @@ THEOREMS = [
     "VK.C08_condoborda_neutral",
     "VK.C08_random_dictator_neutral",
     "VK.C08_boosted_neutral",
+    "VK.scoreToRanking_re",
+    "VK.electFromRanking_re",
+    "VK.scoreFromRankings_re",
+    "VK.applyTransfers_perm",
+    "VK.stvStep_re",
+    "VK.C08_plurality_cand_order",
+    "VK.C08_borda_cand_order",
+    "VK.C08_scorerule_cand_order",
+    "VK.C08_stv_cand_order",
+    "VK.C08_irv_cand_order",
+    "VK.C08_seqrcv_cand_order",
+    "VK.reRS_same_sets",
 ]
 RULE = ("cases = deterministic configuration of every ranking / scoring / pairwise rule (as in C10) on a random profile; "
         "five transformations of the input: rename the candidates by a random bijection into a second name pool (sort "
